@@ -68,11 +68,15 @@ ConNamed ==
 
 RefCon(name, lb, ub) == [k |-> "REF", tags |-> <<>>, name |-> name, con |-> TIntR(B(lb), B(ub), FALSE).con]
 RefSz(name, sz) == [k |-> "REF", tags |-> <<>>, name |-> name, sz |-> sz]
+\* an *extensible* constraint written on a reference to a type with a non-extensible one: A0 (6..7, ...);
+\* the constraint of A0 itself keeps holding (X.680 50.x: serial application)
+RefConX(name, lb, ub) == [k |-> "REF", tags |-> <<>>, name |-> name, con |-> TIntR(B(lb), B(ub), TRUE).con]
 
 ConRefTypes ==
   << RefCon("A0", 0, 10), RefCon("A0", 0, 300), RefCon("A0", -5, 100), RefCon("A0", 7, 7), RefCon("U0", 0, 5), RefCon("E0", 0, 5),
      RefSz("O0", Sz(1, 2, FALSE)), RefSz("O0", Sz(0, 6, FALSE)), RefSz("L0", Sz(1, 2, FALSE)), RefSz("S0", Sz(1, 6, FALSE)),
-     RefSz("B0", Sz(0, 6, FALSE)), RefSz("K0", Sz(2, 2, FALSE)), RefSz("O0", SzRef(1, 10, "", "max")) >>
+     RefSz("B0", Sz(0, 6, FALSE)), RefSz("K0", Sz(2, 2, FALSE)), RefSz("O0", SzRef(1, 10, "", "max")),
+     RefConX("A0", 6, 7), RefSz("O0", Sz(2, 3, TRUE)), RefSz("K0", Sz(1, 2, TRUE)), RefSz("S0", Sz(1, 2, TRUE)) >>
 
 ConPrimTypes ==
   IntTypes \o ConIntExtra \o SelectSeq(BitsTypes \o OctsTypes \o StrTypes, SmallBounds) \o ConSizeExtra \o ConRefTypes
@@ -82,7 +86,7 @@ ConPrimTypes ==
 ConCarriers ==
   << TIntR(B(0), B(255), FALSE), TIntR(B(-129), B(127), FALSE), TIntR(B(0), B(10), TRUE), TIntLo(B(0)), TIntHi(B(127)),
      ConIntExtra[1], ConIntExtra[3], OctsTypes[7], ConSizeExtra[1], BitsTypes[8], StrTypes[14], ConSizeExtra[6],
-     ConRefTypes[2], ConRefTypes[8], ConRefTypes[9] >>
+     ConRefTypes[2], ConRefTypes[8], ConRefTypes[9], ConRefTypes[14], ConRefTypes[15] >>
 
 IsConCarrier(t) == \E i \in 1..Len(ConCarriers) : ConCarriers[i] = t
 
